@@ -119,7 +119,9 @@ func runC10(c *Ctx) {
 			return 0, false
 		}
 		switch {
-		case invokeIs(call, keysPkg, "ManagerInterface", "CreateNewSigningKeyVersion"):
+		case invokeIs(call, keysPkg, "ManagerInterface", "CreateNewSigningKeyVersion"),
+			invokeIs(call, keysPkg, "ManagerInterface", "CreateNewRootKey"),
+			invokeIs(call, keysPkg, "ManagerInterface", "CreateFirstSigningKey"):
 			return c10Create, true
 		case invokeIs(call, stypPkg, "CertificateAuthority", "PrimarySigningKeyVersion"), invokeIs(call, stypPkg, "CertificateAuthority", "PrimaryRootKeyVersion"):
 			return c10Info, true
@@ -188,6 +190,10 @@ func runC10(c *Ctx) {
 			switch ph {
 			case esp.AtCall:
 				switch ev.ID {
+				case c10Create:
+					if s.Has(bFailed) {
+						return s, "R3: a key is created after a failed step, state " + st + " (the operation is about to be refused, and the key it leaves behind can sign although no certificate authority records it)"
+					}
 				case c10DestroyOld:
 					msg := ""
 					if !s.Has(bFinOk) {
